@@ -472,7 +472,7 @@ func generate(r *hx.Run, prop string) []*Case {
 		for _, v := range []struct {
 			kind byte
 			enc  byte
-		}{{'s', 'q'}, {'s', 'n'}, {'w', 'q'}, {'A', 'b'}} {
+		}{{'s', 'q'}, {'s', 'n'}, {'w', 'q'}, {'w', 'n'}} {
 			enumScripts(16, 1, negDev, func(sc []smtpx.Decision) {
 				c := base(nm, 1, v.enc, allCaps, sc)
 				c.Prog = "conc"
